@@ -97,28 +97,35 @@ def option_sets(tier):
 def repos(tier, small=False):
     if tier == "quick":
         ks = KSETS[:7] if not small else [KSETS[i] for i in (1, 3, 4, 6)]
-        return [[["1", a], ["2", b]] for a in ks for b in ks] + (UNKNOWN_ARCH_REPOS[:2] if small else UNKNOWN_ARCH_REPOS)
+        return [[["1", a], ["2", b]] for a in ks for b in ks] + (UNKNOWN_ARCH_REPOS[:2] + ONE_VERSION_REPOS[1:2] if small else UNKNOWN_ARCH_REPOS + ONE_VERSION_REPOS)
     if small:
         ks = [KSETS[i] for i in (1, 3, 4, 6, 9, 11)]
-        return [[["1", a], ["2", b]] for a in ks for b in ks] + UNKNOWN_ARCH_REPOS
-    out = [[["1", a], ["2", b]] for a in KSETS[:12] for b in KSETS[:12]] + UNKNOWN_ARCH_REPOS
+        return [[["1", a], ["2", b]] for a in ks for b in ks] + UNKNOWN_ARCH_REPOS + ONE_VERSION_REPOS[:2]
+    out = [[["1", a], ["2", b]] for a in KSETS[:12] for b in KSETS[:12]] + UNKNOWN_ARCH_REPOS + ONE_VERSION_REPOS
     ks3 = [KSETS[i] for i in (0, 1, 4, 5, 6)]
     out += [[["1", a], ["2", b], ["3", c]] for a in ks3 for b in ks3 for c in ks3]
     return out
 
 
+# non-exact specs that admit exactly one version of the two-version repositories (and a/p on a one-version repository):
+# a stabilization must still refuse them, keywording accepts them
+ONE_HIT_SPECS = [">a/p-1", "<a/p-2", "~a/p-2", "=a/p-2*", ">=a/p-2"]
+ONE_VERSION_REPOS = [[["1", ["amd64"]]], [["1", ["~amd64", "~x86"]]], [["2", ["amd64", "~x86"]]], [["2", []]]]
+
+
 def single_lines(tier):
     sp, kw = (SPECS, KWS) if tier == "quick" else (SPECS_T, KWS_T)
-    return [[[s, k]] for s in sp for k in kw]
+    kw1 = [["amd64"], ["*"], [], ["~x86"]] if tier == "quick" else kw
+    return [[[s, k]] for s in sp for k in kw] + [[[s, k]] for s in ONE_HIT_SPECS for k in kw1]
 
 
 def double_lines(tier):
     if tier == "quick":
         first = [["=a/p-1", k] for k in ([], ["amd64"], ["~x86", "amd64"], ["*"], ["-"], ["x86-macos"], ["arm"])] + [["a/p", ["amd64"]], [">=a/p-1", ["x86"]], ["=a/p-2", ["*"]], ["a/p", ["*"]]]
-        second = [["=a/p-2", k] for k in KWS] + [["=a/p-1", ["^"]]]
+        second = [["=a/p-2", k] for k in KWS] + [["=a/p-1", ["^"]], ["~a/p-2", ["^"]], [">a/p-1", ["^"]], ["a/p", ["^"]]]
     else:
         first = [["=a/p-1", k] for k in KWS_T if k != ["^"]] + [["a/p", ["amd64"]], [">=a/p-1", ["x86"]], ["=a/p-2", ["*"]], ["a/p", ["*"]]]
-        second = [["=a/p-2", k] for k in KWS_T] + [["a/p:0", ["^"]], ["=a/p-1", ["^"]]]
+        second = [["=a/p-2", k] for k in KWS_T] + [["a/p:0", ["^"]], ["=a/p-1", ["^"]], ["~a/p-2", ["^"]], [">a/p-1", ["^"]], ["a/p", ["^"]], ["=a/p-2*", ["^"]]]
     return [[a, b] for a in first for b in second]
 
 
@@ -141,13 +148,24 @@ def spec_ok_for_stable(spec):
     return spec.startswith("=") and ":" not in spec and not spec.endswith("*")
 
 
+def ref_spec_matches(spec, ver):
+    """does the spec (over package a/p, integer versions without revisions, every version in slot 0) admit this version"""
+    body = spec.split(":")[0]
+    if body == "a/p":
+        return True
+    for op in (">=", "<=", "=", "~", ">", "<"):
+        if body.startswith(op):
+            arg = body[len(op) + len("a/p-") :]
+            if op == "=" and arg.endswith("*"):
+                return ver.startswith(arg[:-1])
+            a, v = int(arg), int(ver)
+            return {">=": v >= a, "<=": v <= a, "=": v == a, "~": v == a, ">": v > a, "<": v < a}[op]
+    raise AssertionError(spec)
+
+
 def ref_version_for(repo, spec):
-    """the version a spec resolves to, per the docstrings (exact for =, else newest keyworded, else newest)"""
-    vers = [v for v, _ in repo]
-    if spec.startswith("="):
-        v = spec[len("=a/p-") :].split(":")[0]
-        return v if v in vers else None
-    cands = sorted(vers, key=int, reverse=True)  # a/p, a/p:0, >=a/p-1 match every version here
+    """the version a spec resolves to, per the docstrings (newest keyworded version among those matched, else the newest)"""
+    cands = sorted((v for v, _ in repo if ref_spec_matches(spec, v)), key=int, reverse=True)
     for v in cands:
         if dict(repo)[v]:
             return v
